@@ -66,6 +66,7 @@ static void e3_tail_request(void);
 static int e3_tid(void);
 static void e3_trace_add(int id);
 static int sched_on_flag(void);
+static void e3_after_output(void);
 static long e3_steps(void);
 
 static long tids[64];
@@ -377,7 +378,11 @@ ssize_t write(int fd, const void *buf, size_t count) {
             return ret;
         }
     }
-    return syscall(SYS_write, fd, buf, count);
+    long wr = syscall(SYS_write, fd, buf, count);
+    /* engine E3: what a thread printed is visible before whatever it does next (exit, send):
+     * the other threads get a turn right here */
+    if (active && fd == 1 && wr > 0) e3_after_output();
+    return wr;
 }
 
 /* ===========================================================================================
@@ -741,3 +746,5 @@ static int e3_tid(void) { return sched_on ? my_id : -1; }
 static void e3_trace_add(int id) { if (s_trace_n < MAX_STEPS) s_trace[s_trace_n++] = id; }
 static int sched_on_flag(void) { return sched_on; }
 static long e3_steps(void) { return s_steps; }
+
+static void e3_after_output(void) { if (e3_controlled()) sched_point(0); }
